@@ -27,7 +27,7 @@ RULE = ("(a) random shapes of the universe (depth <= 3; u8..u64/usize, i16..i64,
         "offsets, lengths, at/in, of, for loops, filesize and header constraints, rule references, global/private rules, tags, metadata of every type, "
         "globals of every type (bool/int/float/string/bytes/struct with array), regexps and regexp sets in conditions, math/hash/string imports; 6 buffers "
         "built from the patterns' own instances; dumps of R, deserialize(serialize R) and the second round trip. (c) every prefix <= 4096 bytes plus 512 "
-        "sampled (quick) or every strict prefix (thorough; first 120 blobs) of each blob, all 12x255 single-byte header alterations of the first blob and 24 sampled of the "
+        "sampled (quick) or every strict prefix (thorough; first 80 blobs) of each blob, all 12x255 single-byte header alterations of the first blob and 24 sampled of the "
         "others, foreign/random blobs. (d) whole real blobs decoded and re-encoded by the model of struct Rules. Non-trivial/distinct: distinct rule-set "
         "sources and distinct (shape, value) pairs with more than 2 encoded bytes.")
 
@@ -52,7 +52,7 @@ def run_k(run, tier, seed, drv):
     if tier == "quick":
         args = ["--seed", seed, "--n", 500, "--rulesets", 36, "--model-blobs", 6]
     else:
-        args = ["--seed", seed, "--n", 12000, "--rulesets", 160, "--model-blobs", 48, "--all-prefixes", "--all-prefix-sets", 120]
+        args = ["--seed", seed, "--n", 12000, "--rulesets", 140, "--model-blobs", 40, "--all-prefixes", "--all-prefix-sets", 80]
     info = standard_k(run, drv, "C08", "c08", args, "K_C08_codec", classify, timeout=2400)
     info["rule"] = RULE
     return info
